@@ -211,6 +211,16 @@ def rule_c(prog, rep):
             if tm.contains(v, lambda x: x.op == "binop" and x.args[0] == "-" and tm.contains(x.args[1], lambda y: y.op == "attr" and y.args[1] == "size" or (y.op == "call" and tm.callee_name(y) == "iindexes:iindex.size"))
                            and tm.contains(x.args[2], lambda y: y.op == "call" and tm.callee_name(y) == "builtins.sum")):
                 ok_inc = True
+        # every listed value enters with the number of its rows
+        acc = [e for e in I.events if e.kind == "store_sub" and e["aug"] == "+" and e.loops and d is not None and (e["base"] in tm.alts(d) + [d])
+               and e["index"].op == "sub" and e["index"].args[0].op == "dkey" and tm.is_const(e["index"].args[1], 0)]
+        def _len_rows(e):
+            v = e["value"]
+            rhs = v.args[2] if v.op == "binop" else v
+            return rhs.op == "call" and tm.callee_name(rhs) == "builtins.len" and rhs.args[1][0].op == "dval" and rhs.args[1][0].args[:2] == e["index"].args[0].args[:2]
+        rep.check(bool(acc) and all(_len_rows(e) for e in acc), "R-C15-c", fi.fq, "every listed value enters the comparison with the number of its rows: counts[coords[0]] += len(rowids)", "",
+                  "the per-value counts are not accumulated from the entries (%d accumulating stores)" % len(acc),
+                  witness={"inputs": "a 2-D index: a value listed in two columns counts once / with a wrong weight, and a less frequent value is chosen"})
         rep.check(ok_inc, "R-C15-c", fi.fq, "the common value competes with its own count (size - sum of listed rows)", "",
                   "the implicit count of the common value is not entered into the comparison",
                   witness={"inputs": "index where the common value is still the most frequent: it would be replaced"})
